@@ -56,7 +56,12 @@ pub enum FStep {
         unsupported: bool,
     },
     RingPoll,
-    DropFd { fd: u16 },
+    DropFd {
+        fd: u16,
+        /// A synchronous close(2) made by this drop reports EINTR.
+        #[serde(default)]
+        eintr: bool,
+    },
     /// `AsyncFd::close()`: the returned future is driven like any operation.
     CloseFd { fd: u16 },
 }
@@ -723,7 +728,7 @@ fn fstep() -> impl Strategy<Value = FStep> {
         2 => any::<u16>().prop_map(|op| FStep::DropOp { op }),
         7 => (any::<u16>(), any::<bool>(), proptest::bool::weighted(0.1), proptest::bool::weighted(0.15)).prop_map(|(op, more, fail, unsupported)| FStep::Complete { op, more, fail, unsupported }),
         6 => Just(FStep::RingPoll),
-        5 => any::<u16>().prop_map(|fd| FStep::DropFd { fd }),
+        5 => (any::<u16>(), proptest::bool::weighted(0.3)).prop_map(|(fd, eintr)| FStep::DropFd { fd, eintr }),
         3 => any::<u16>().prop_map(|fd| FStep::CloseFd { fd }),
     ]
 }
@@ -745,7 +750,7 @@ impl Property for C07 {
     }
 
     fn rule() -> &'static str {
-        "proptest histories of descriptor-creating operations (open, socket, pipe, accept, multishot accept, to_direct_descriptor, to_file_descriptor, AsyncFd::new, try_clone, stdin/stdout/stderr handles) with regular and direct kinds, completed/failed by the simulated kernel (which issues real, never reused descriptor numbers and direct slots), operations dropped before delivery, AsyncFds dropped or closed explicitly, on rings of 1..8 submission entries so that drops hit a full queue. Close ledger fed by IORING_OP_CLOSE SQEs (fd or file_index-1), REGISTER_FILES_UPDATE(-1) and the interposed close(2): once the owner is gone and the queue flushed each descriptor has exactly one close through a path matching its kind, nothing foreign is closed, 0-2 never; every descriptor the kernel returned is wrapped by exactly one AsyncFd with matching kind/number, or closed by the end if its operation was abandoned. Non-trivial = closed through the full-queue fall-back, or a direct descriptor, or a descriptor delivered to an abandoned operation. Distinct = (classes, 16-bit case hash)."
+        "proptest histories of descriptor-creating operations (open, socket, pipe, accept, multishot accept, to_direct_descriptor, to_file_descriptor, AsyncFd::new, try_clone, stdin/stdout/stderr handles) with regular and direct kinds, completed/failed by the simulated kernel (which issues real, never reused descriptor numbers and direct slots), operations dropped before delivery, AsyncFds dropped or closed explicitly, on rings of 1..8 submission entries so that drops hit a full queue; a synchronous close(2) may report EINTR (the descriptor is released all the same and must not be closed again). Close ledger fed by IORING_OP_CLOSE SQEs (fd or file_index-1), REGISTER_FILES_UPDATE(-1) and the interposed close(2): once the owner is gone and the queue flushed each descriptor has exactly one close through a path matching its kind, nothing foreign is closed, 0-2 never; every descriptor the kernel returned is wrapped by exactly one AsyncFd with matching kind/number, or closed by the end if its operation was abandoned. Non-trivial = closed through the full-queue fall-back, or a direct descriptor, or a descriptor delivered to an abandoned operation. Distinct = (classes, 16-bit case hash)."
     }
 
     fn assumptions() -> Vec<&'static str> {
@@ -817,12 +822,16 @@ fn run_case(case: &Case, ctx: &mut Ctx) {
                     Ok(Ok(())) => {}
                 }
             }
-            FStep::DropFd { fd } => {
+            FStep::DropFd { fd, eintr } => {
                 let c: Vec<usize> = exec.fds.iter().enumerate().filter(|(_, s)| (s.fd.is_some() || s.stdio.is_some()) && s.borrowed == 0).map(|(i, _)| i).collect();
                 if c.is_empty() {
                     exec.ctx.skipped_steps += 1;
                 } else {
+                    if *eintr {
+                        shims::close_reports_eintr(1);
+                    }
                     exec.drop_fd(c[pick_index(*fd, c.len())]);
+                    shims::close_reports_eintr(0);
                 }
             }
             FStep::CloseFd { fd } => {
